@@ -164,7 +164,10 @@ func (ci *cindex) onWrite(src string, firstRec, lastRec uint32, rInfo RecordsInf
 	}
 
 	last := sc[len(sc)-1]
-	last.Recs = lastRec + 1
+	if last.Recs < lastRec+1 {
+		// a notification which arrives late (concurrent writers) does not take records back
+		last.Recs = lastRec + 1
+	}
 	ci.lock.Unlock()
 
 	// now check whether we have to call for the index update
@@ -185,8 +188,9 @@ func (ci *cindex) onWrite(src string, firstRec, lastRec uint32, rInfo RecordsInf
 		return ErrTmIndexCorrupted
 	}
 
-	if last.lastRec > 0 && lastRec-last.lastRec < sparseSpace {
-		// no need to write, give it a space so far
+	if last.lastRec > 0 && (lastRec <= last.lastRec || lastRec-last.lastRec < sparseSpace) {
+		// no need to write, give it a space so far; the records of a notification which arrives late (concurrent
+		// writers) lie in front of the last indexed record: the intervals written already span them
 		last.rwLock.Unlock()
 		return nil
 	}
